@@ -118,7 +118,7 @@ def run_case(ctx, kind_, idx):
             ctx.monitor("c16:to_function")
             e = float(np.max(np.abs(got - y))) / mag
             ctx.track_worst("to_function_rel", e / max(1.0, ratio))
-            if e > irel:
+            if not e <= irel:
                 ctx.violation("to_function_misses_samples", cid, {"err": e, "case": info})
                 return
             if not np.all(np.isfinite(got_mid)):
@@ -135,19 +135,19 @@ def run_case(ctx, kind_, idx):
             if mode == "smooth":
                 ctx.monitor("c16:smooth_residual")
                 ctx.track_worst("residual_over_s", res / s)
-                if res > 1.0011 * s + 1e-9 * mag * mag * len(y):
+                if not res <= 1.0011 * s + 1e-9 * mag * mag * len(y):
                     ctx.violation("residual_exceeds_s", cid, {"residual": res, "s": s, "case": info})
                     return
                 if meta["ycls"] == "affine":
                     ctx.monitor("c16:affine")
-                    if float(np.max(np.abs(gy - y))) > irel * mag:
+                    if not float(np.max(np.abs(gy - y))) <= irel * mag:
                         ctx.violation("affine_data_changed", cid, {"err": float(np.max(np.abs(gy - y))), "case": info})
                         return
                 elif res > 1e-12 * mag * mag:
                     ctx.nontriv("c16", idx)
             else:
                 ctx.monitor("c16:smooth_zero")
-                if float(np.max(np.abs(gy - y))) > irel * mag:
+                if not float(np.max(np.abs(gy - y))) <= irel * mag:
                     ctx.violation("smooth_zero_not_identity", cid, {"err": float(np.max(np.abs(gy - y))), "case": info})
                     return
                 if meta["ycls"] != "affine":
@@ -157,7 +157,7 @@ def run_case(ctx, kind_, idx):
             with warnings.catch_warnings():
                 warnings.simplefilter("ignore")
                 want = BSpline(*splrep(x, y, s=len(y) * float(np.var(y))))(x)
-            if float(np.max(np.abs(got - want))) > 1e-9 * mag:
+            if not float(np.max(np.abs(got - want))) <= 1e-9 * mag:
                 ctx.violation("default_s_differs_from_len_times_var", cid,
                               {"max_diff": float(np.max(np.abs(got - want))), "case": info})
                 return
